@@ -928,6 +928,79 @@ func (m *Model) explore(b *ssa.BasicBlock, succ int, flag int, step func(in ssa.
 	m.exploreImpl(b, succ, nil, flag, step, atEnd)
 }
 
+// exploreAssuming is exploreFrom under assumed truth values of boolean SSA values: branches on
+// them are followed only along the consistent edge, and when one is returned by a helper its
+// assumed value is what the caller's test of that result sees.
+func (m *Model) exploreAssuming(start ssa.Instruction, assume map[ssa.Value]bool, flag int, step func(in ssa.Instruction, flag int) (int, bool), atEnd func(last ssa.Instruction, flag int)) {
+	m.assume = assume
+	defer func() { m.assume = nil }()
+	m.exploreImpl(nil, 0, start, flag, step, atEnd)
+}
+
+// exploreAssumingNil is exploreFrom under the assumption that the given values are nil:
+// comparisons of them (or of a phi that takes one of them along the path's incoming edge) with
+// nil are followed only along the consistent edge.
+func (m *Model) exploreAssumingNil(start ssa.Instruction, nilVals map[ssa.Value]bool, flag int, step func(in ssa.Instruction, flag int) (int, bool), atEnd func(last ssa.Instruction, flag int)) {
+	m.assumeNil = nilVals
+	defer func() { m.assumeNil = nil }()
+	m.exploreImpl(nil, 0, start, flag, step, atEnd)
+}
+
+// nilTestUnderAssumption: cond evaluates to condTrue because it compares a value assumed nil with nil.
+func (m *Model) nilTestUnderAssumption(cond ssa.Value, cur, cameFrom *ssa.BasicBlock) (condTrue bool, known bool) {
+	neg := false
+	for {
+		if u, ok := cond.(*ssa.UnOp); ok && u.Op == token.NOT {
+			cond, neg = u.X, !neg
+			continue
+		}
+		break
+	}
+	bo, ok := cond.(*ssa.BinOp)
+	if !ok || (bo.Op != token.EQL && bo.Op != token.NEQ) {
+		return false, false
+	}
+	var other ssa.Value
+	if k, ok := bo.X.(*ssa.Const); ok && k.Value == nil {
+		other = bo.Y
+	} else if k, ok := bo.Y.(*ssa.Const); ok && k.Value == nil {
+		other = bo.X
+	}
+	if other == nil {
+		return false, false
+	}
+	isNil := false
+	for i := 0; i < 4; i++ {
+		other = m.traceValue(other)
+		if m.assumeNil[other] {
+			isNil = true
+			break
+		}
+		ph, isPhi := other.(*ssa.Phi)
+		if !isPhi || ph.Block() != cur || cameFrom == nil {
+			break
+		}
+		next := ssa.Value(nil)
+		for pi, pp := range cur.Preds {
+			if pp == cameFrom && pi < len(ph.Edges) {
+				next = ph.Edges[pi]
+			}
+		}
+		if next == nil {
+			break
+		}
+		other = next
+	}
+	if !isNil {
+		return false, false
+	}
+	res := bo.Op == token.EQL
+	if neg {
+		res = !res
+	}
+	return res, true
+}
+
 func (m *Model) exploreImpl(b *ssa.BasicBlock, succ int, startAt ssa.Instruction, flag int, step func(in ssa.Instruction, flag int) (int, bool), atEnd func(last ssa.Instruction, flag int)) {
 	if startAt == nil && deadEdge(b, succ) {
 		return
@@ -942,10 +1015,13 @@ func (m *Model) exploreImpl(b *ssa.BasicBlock, succ int, startAt ssa.Instruction
 		return strings.Join(ks, ",")
 	}
 	seen := map[string]bool{}
-	var walk func(x *ssa.BasicBlock, from int, flag int, bd binding, depth int)
-	walk = func(x *ssa.BasicBlock, from int, flag int, bd binding, depth int) {
+	var walkFrom func(x, cameFrom *ssa.BasicBlock, from int, flag int, bd binding, depth int)
+	walk := func(x *ssa.BasicBlock, from int, flag int, bd binding, depth int) {
+		walkFrom(x, nil, from, flag, bd, depth)
+	}
+	walkFrom = func(x, cameFrom *ssa.BasicBlock, from int, flag int, bd binding, depth int) {
 		if from == 0 {
-			k := fmt.Sprintf("%p|%d|%s", x, flag, bindKey(bd))
+			k := fmt.Sprintf("%p|%p|%d|%s", x, cameFrom, flag, bindKey(bd))
 			if seen[k] {
 				return
 			}
@@ -970,8 +1046,22 @@ func (m *Model) exploreImpl(b *ssa.BasicBlock, succ int, startAt ssa.Instruction
 						}
 						vals := make([]string, len(t.Results))
 						for j := range t.Results {
-							if k, isC := returnValue(t, j).(*ssa.Const); isC {
+							rv := returnValue(t, j)
+							if k, isC := rv.(*ssa.Const); isC {
 								vals[j] = constString(k)
+							} else if av, ok := m.assumedValue(rv); ok {
+								vals[j] = fmt.Sprint(av)
+							} else if ph, isPhi := rv.(*ssa.Phi); isPhi && ph.Block() == x && cameFrom != nil {
+								// the value returned along the edge this path took
+								for pi, pp := range x.Preds {
+									if pp == cameFrom && pi < len(ph.Edges) {
+										if k, isC := ph.Edges[pi].(*ssa.Const); isC {
+											vals[j] = constString(k)
+										} else if av, ok := m.assumedValue(ph.Edges[pi]); ok {
+											vals[j] = fmt.Sprint(av)
+										}
+									}
+								}
 							}
 						}
 						nb[call] = vals
@@ -1001,7 +1091,23 @@ func (m *Model) exploreImpl(b *ssa.BasicBlock, succ int, startAt ssa.Instruction
 					}
 				}
 			}
-			walk(s, 0, flag, bd, depth)
+			if ifi, ok := x.Instrs[len(x.Instrs)-1].(*ssa.If); ok && len(x.Succs) == 2 && len(m.assumeNil) > 0 {
+				if isNil, known := m.nilTestUnderAssumption(ifi.Cond, x, cameFrom); known {
+					// cond is (X == nil) or (X != nil) with X assumed nil
+					if (i == 0) != isNil {
+						continue
+					}
+				}
+			}
+			if ifi, ok := x.Instrs[len(x.Instrs)-1].(*ssa.If); ok && len(x.Succs) == 2 && len(m.assume) > 0 {
+				l := m.litOf(ifi.Cond, i == 0, ifi)
+				if l.S.V != nil {
+					if av, ok := m.assume[l.S.V]; ok && av != l.Truth {
+						continue // this edge contradicts an assumption
+					}
+				}
+			}
+			walkFrom(s, x, 0, flag, bd, depth)
 		}
 	}
 	if startAt != nil {
@@ -1116,4 +1222,22 @@ func (m *Model) dominatesReturns(a ssa.Instruction) bool {
 		}
 	}
 	return true
+}
+
+
+// assumedValue: the truth value of a boolean SSA value under the current assumptions (which are
+// keyed by the value of the normalised literal, see litOf).
+func (m *Model) assumedValue(v ssa.Value) (bool, bool) {
+	if len(m.assume) == 0 || !isBoolType(v.Type()) {
+		return false, false
+	}
+	l := m.litOf(v, true, nil)
+	if l.S.V == nil {
+		return false, false
+	}
+	av, ok := m.assume[l.S.V]
+	if !ok {
+		return false, false
+	}
+	return av == l.Truth, true
 }
